@@ -60,6 +60,11 @@ def attr_lines(cfg):
     return lines + list(cfg.get("extra_attrs", []))
 
 
+def unraw(ident):
+    """`r#async` names `async`: the default struct names are EnumName + Iter / Names built from the name"""
+    return ident[2:] if ident.startswith("r#") else ident
+
+
 def decl_lines(case, derive=True, ename="E"):
     out = []
     if derive:
@@ -141,15 +146,15 @@ def glue_lines(case, ename="E", path="super::d"):
     if "range" in nm:
         L.append(f"    c.range = Some(|a, b| Box::new(::rt::It(E::{nm['range']}(VARS[a], VARS[b]), |v: E| ::rt::Obs::Val(cv(v)))));")
     if "names" in nm:
-        L.append(f"    c.names = Some(|| Box::new(::rt::It(E::{nm['names']}(), |s: &'static str| ::rt::Obs::Str(s.to_string()))));")
+        L.append(f"    c.names = Some(|| Box::new(::rt::ItOrd(E::{nm['names']}(), |s: &'static str| ::rt::Obs::Str(s.to_string()))));")
     if "iter" in nm and "names" in nm:
         L.append(f"    c.zip = Some(|| E::{nm['iter']}().zip(E::{nm['names']}()).map(|(v, s)| (cv(v), s.to_string())).collect());")
     L.append("    c")
     L.append("}")
     # C19: the documented signatures, as compile-time ascriptions (never executed).  A deviation makes the
     # glue of this case fail to compile, which is reported as a C19 violation.
-    iter_struct = f"{path}::" + dict(case["cfg"]["feats"]).get("iter", {}).get("struct_name", f"{ename}Iter")
-    names_struct = f"{path}::" + dict(case["cfg"]["feats"]).get("names", {}).get("struct_name", f"{ename}Names")
+    iter_struct = f"{path}::" + dict(case["cfg"]["feats"]).get("iter", {}).get("struct_name", f"{unraw(ename)}Iter")
+    names_struct = f"{path}::" + dict(case["cfg"]["feats"]).get("names", {}).get("struct_name", f"{unraw(ename)}Names")
     v0 = vs[0]["ident"]
     L.append("#[allow(dead_code)] fn sigs() {")
     if "into" in nm:
